@@ -1,7 +1,6 @@
 package world
 
 import (
-	"verif/atomixtap"
 	"context"
 	"fmt"
 	"os"
@@ -10,6 +9,7 @@ import (
 	"sync"
 	"sync/atomic"
 	"time"
+	"verif/atomixtap"
 
 	adminapi "github.com/onosproject/onos-api/go/onos/config/admin"
 	configapi "github.com/onosproject/onos-api/go/onos/config/v2"
@@ -441,6 +441,22 @@ func (w *World) Disconnect(target string) {
 		w.logEvent(&Event{Kind: "env.disconnect", Target: target, OK: true, Note: id})
 		inc.Conns.remove(sb.ConnID(id))
 	}
+}
+
+// ForeignRelation creates (or, when it exists, deletes) a CONTROLS relation from ANOTHER onos-config node to the
+// target, as a second replica's connection controller would. This node must never elect it: it has no such connection.
+func (w *World) ForeignRelation(target string) (string, bool) {
+	id := "conn-foreign-" + target
+	ctx := context.Background()
+	if o, err := w.Topo.Get(ctx, topoapi.ID(id)); err == nil {
+		_ = w.Topo.Delete(ctx, o)
+		w.logEvent(&Event{Kind: "env.foreign-relation-removed", Target: target, OK: true, Note: id})
+		return id, false
+	}
+	_ = w.Topo.Create(ctx, &topoapi.Object{ID: topoapi.ID(id), Type: topoapi.Object_RELATION, Obj: &topoapi.Object_Relation{Relation: &topoapi.Relation{
+		KindID: topoapi.CONTROLS, SrcEntityID: "gnmi:onos-config-9", TgtEntityID: topoapi.ID(target)}}})
+	w.logEvent(&Event{Kind: "env.foreign-relation", Target: target, OK: true, Note: id})
+	return id, true
 }
 
 // Connected tells whether the target has a live connection in the current incarnation
